@@ -23,7 +23,7 @@ func init() {
 func runFlood07(toks []string) Result {
 	tags := []string{"nt", "byte-flood"}
 	if os.Getenv("VH_CHILD") == "" {
-		r := runIsolatedFor("C07", toks, 40*time.Second)
+		r := runIsolatedFor("C07", toks, 100*time.Second)
 		r.Tags = append(r.Tags, tags...)
 		return r
 	}
@@ -50,8 +50,8 @@ func runFlood07(toks []string) Result {
 	}()
 	select {
 	case <-done:
-	case <-time.After(30 * time.Second):
-		return Result{Obs: "flooder-not-finished", Oracle: "fail:the connection that sent the flood was still being worked on after 30 s", Tags: tags}
+	case <-time.After(80 * time.Second):
+		return Result{Obs: "flooder-not-finished", Oracle: "fail:the connection that sent the flood was still being worked on after 80 s", Tags: tags}
 	}
 	wcl.SetDeadline(time.Now().Add(3 * time.Second))
 	wcl.Write(reqS("PING"))
